@@ -118,7 +118,7 @@ def universe():
 def budget(tier):
     if tier == "quick":
         return 360
-    return len(universe()) + 900
+    return len(universe()) + 600
 
 
 def _mk(kind, costs, b, ballots, order=None, tag="random"):
